@@ -15,7 +15,12 @@ judge() {
     # turn a libFuzzer artifact into a replayable case of the property it violates
     local art="$1"
     out=$("$PV" fuzz-artifact "$art" 2>&1)
-    echo "$out" | grep -E "^VIOLATION" && return 1
+    if echo "$out" | grep -qE "^VIOLATION property=$id "; then
+        echo "$out" | grep -E "^pv: violation" | head -1
+        echo "$out" | grep -E "^VIOLATION property=$id " | head -1
+        return 1
+    fi
+    # (a violation of the sibling property only is reported by that property's own run)
     return 0
 }
 if [ "$tier" != "thorough" ]; then
@@ -56,11 +61,16 @@ except Exception as ex:
     print("fuzz: could not update evidence:",ex)
 PY
 if [ "$arts" -gt 0 ]; then
+    other=0
     for a in "$work"/artifacts/*; do
-        cp "$a" "$regress/$(basename "$a")"
-        judge "$regress/$(basename "$a")" || exit 1
+        judge "$a" || exit 1
+        "$PV" fuzz-artifact "$a" 2>&1 | grep -qE "^VIOLATION" && other=1
     done
-    echo "fuzz: artifacts did not reproduce under the in-process oracle (inconclusive)" >&2
+    if [ "$other" = 1 ]; then
+        echo "fuzz: the artifacts violate the sibling property only (reported by its own check)"
+        exit 0
+    fi
+    echo "fuzz: artifacts did not reproduce under the in-process oracle (inconclusive); kept in $work/artifacts" >&2
     exit 2
 fi
 exit 0
